@@ -269,3 +269,20 @@ impl<T: Config> SpectatorSession<T> {
         }
     }
 }
+
+#[cfg(feature = "verif-hooks")]
+impl<T: Config> SpectatorSession<T> {
+    /// Read-only snapshot of internal buffer sizes (verification hook).
+    pub fn verif_snapshot(&self) -> crate::verif_hooks::SpectatorSnapshot {
+        crate::verif_hooks::SpectatorSnapshot {
+            event_queue: self.event_queue.len(),
+            last_recv_frame: self.last_recv_frame,
+            host_connect_status: self
+                .host_connect_status
+                .iter()
+                .map(|c| (c.disconnected, c.last_frame))
+                .collect(),
+            host: self.host.verif_snapshot(),
+        }
+    }
+}
